@@ -181,6 +181,10 @@ def build(case, expanded, with_trailer=True):
     return (refvbs.block(stream) if case['blocked'] else stream), expected
 
 
+def looks_blocked(data):
+    return data[1012:1014] == b'@@' and (len(data) < 2028 or data[2026:2028] == b'@@')
+
+
 def read_rows(case, data, expanded):
     kw = dict(param_config=case['param_config'], expanded=expanded, blocked=case['blocked'])
     if not (case['codec'] == 'latin_1' and len(data) % 2):
@@ -308,7 +312,8 @@ def hyp_extracts(ctx, n):
                  labels=['extract', 'blocked' if case['blocked'] else 'vbs', 'layout:generated' if case['param_config'] else 'layout:packaged',
                          'codec:' + case['codec'], 'has-look-alike-table' if len({t for _, t in case['index']}) > 1 else 'single-table',
                          'table-under-several-sub-ids' if len(case['index']) > len({t for _, t in case['index']}) else 'one-sub-id-per-table',
-                         'has-empty-table' if case['empty_tables'] else 'all-tables-have-rows'])
+                         'has-empty-table' if case['empty_tables'] else 'all-tables-have-rows']
+                 + (['unblocked-file-looks-blocked'] if not case['blocked'] and any(looks_blocked(build(case, x)[0]) for x in (True, False)) else []))
         if len(ctx.samples) < 4 and foreign_between:
             ctx.sample({'codec': case['codec'], 'wanted': case['wanted'], 'index': case['index'], 'blocked': case['blocked'],
                         'rows': [(t, ts, code, body[:24], sub) for t, ts, code, body, sub in case['rows'][:6]]})
@@ -317,6 +322,7 @@ def hyp_extracts(ctx, n):
             ctx.fail(res[0], case, res[1])
     harness.drive(ctx, extract_files(ctx.tier), body, n, salt='extracts')
     ctx.floor('has-look-alike-table', 0.3, 'extract')
+    ctx.floor('unblocked-file-looks-blocked', 0.03, 'extract')
 
 
 def hyp_long_runs(ctx, n):
